@@ -36,7 +36,7 @@ class C17(PropBase):
 
     def random_cases(self, rnd, n):
         for i in range(n):
-            c = state_case(rnd, removal=True, max_calls=9, family=rnd.choice(['int', 'int', 'str']))
+            c = state_case(rnd, removal=True, max_calls=9, family=rnd.choice(['int', 'int', 'str', 'sym']))
             c['hist'] = [o for o in c['hist'] if not (o[0] == 'add' and o[2] == o[3])]
             if not any(o[0] == 'add' for o in c['hist']):
                 c['hist'].append(('add', 0, 1, 2, 0, 3))
